@@ -405,6 +405,30 @@ def check_format_input_vertices(inp):
     return inp
 
 
+def check_format_input_tetrahedron(inp):
+    """checks Tetrahedron vertices input and returns in formatted form
+    - vector check with shape (4,3) or None
+    - the four vertices must not lie in one plane (zero volume)
+    """
+    inp = check_format_input_vector(
+        inp,
+        dims=(2,),
+        shape_m1=3,
+        length=4,
+        sig_name="Tetrahedron.vertices",
+        sig_type="array_like (list, tuple, ndarray) of shape (4,3)",
+        allow_None=True,
+    )
+
+    if inp is not None:
+        if np.linalg.matrix_rank(inp[1:] - inp[0]) < 3:
+            raise MagpylibBadUserInput(
+                "Input parameter `Tetrahedron.vertices` must not lie in one plane"
+                " (a tetrahedron with zero volume)."
+            )
+    return inp
+
+
 def check_format_input_cylinder_segment(inp):
     """checks vertices input and returns in formatted form
     - vector check with dim = (5) or none
